@@ -289,6 +289,10 @@ def _rsa_pool(r, f, focus):
     a["healthy"] = False
     n1 = int(a["n"], 16)
     pool.append(A.rsa_art(n1 * A.rand_prime(r, 64), fam="nested"))
+  if r.random() < max(0.05, f["degenerate"] * 0.25):
+    a = A.rsa_keypair_msb_collision(r)
+    if a:
+      pool.append(a)
   if not pool:
     pool.append(A.rsa_degenerate(r, "m64"))
   # byte encodings: DER sign byte / fixed-width buffers (value unchanged)
@@ -646,6 +650,23 @@ def directed_plans(prop, profile):
                                           "how": "registry", "via": "all"},
                  "batch": [], "oracle": []}],
         "timeout": 300.0}))
+  if profile == "rsa" and prop in ("C18",):
+    # table-key collisions of every parity of bit length
+    r = random.Random(10)
+    pool = [A.rsa_keypair_msb_collision(r, b) for b in (2048, 128, 66)] + \
+        [A.rsa_keypair_msb_collision(r, b) for b in (65, 127, 2047)]
+    if all(pool):
+      spec = {"name": "CheckKeypairDenylist", "how": "registry", "via": "all"}
+      out.append(("directed-keypair-table-collision", {
+          "engine": "A", "kind": "rsa", "profile": "rsa", "focus": prop,
+          "knobs": {"clock_seed": 7, "denylist": _empty_deny()},
+          "pool": pool, "initial_annotations": {}, "call_timeout": 30,
+          "ops": [{"op": "check", "check": spec, "batch": [0, 1, 2],
+                   "oracle": []},
+                  {"op": "check", "check": spec, "batch": [3], "oracle": []},
+                  {"op": "check", "check": spec, "batch": [4, 5],
+                   "oracle": []}],
+          "timeout": 600.0}))
   if profile == "rsa" and prop in ("C16", "C17"):
     # F4: a resource fault during the first registry fill, heal, all-checks
     r = random.Random(4)
